@@ -266,6 +266,10 @@ class MethodTranslator:
                 return f"{_ident(args[0].id)}_size", P_ATOM
             if name == "sign" and len(args) == 1:
                 return f"HasInf.sign {self.atom(args[0])}", 90
+            if (name == "interp" and len(args) == 3 and all(isinstance(a, (ast.Tuple, ast.List)) and len(a.elts) == 2 for a in args[1:])):
+                # np.interp(x, (x0, x1), (y0, y1)): the clamped two-point interpolation as a named primitive (Model/Interp.lean)
+                self.mod.uses_interp = True
+                return ("HasInterp.interp2 " + " ".join([self.atom(args[0])] + [self.atom(e) for a in args[1:] for e in a.elts])), 90
             raise Untranslatable(f"numpy call {ast.unparse(node)!r} ({_where(node)})")
         # call of a function-valued local (alias of a method of the wrapped transform)
         if isinstance(fn, ast.Name) and fn.id in self.funlocals:
@@ -1064,11 +1068,12 @@ class Module:
 
     def render(self, source="src/grid/rtransform.py") -> str:
         P = [HEADER.format(name="rtransform", source=source)]
-        P.append("import GridVerif.Model.Elem\nimport GridVerif.Model.RTransform\n")
+        interp = getattr(self, "uses_interp", False)      # np.interp in the source: its vocabulary is imported only then (C04 round 6)
+        P.append("import GridVerif.Model.Elem\nimport GridVerif.Model.RTransform\n" + ("import GridVerif.Model.Interp\n" if interp else ""))
         P.append("set_option linter.unusedVariables false\n")
         P.append("namespace GridVerif.Gen.RTransform\n")
         P.append("variable {K : Type} [Add K] [Sub K] [Mul K] [Div K] [Neg K] [NatCast K] [Elem K] [HasInf K]\n"
-                 "  [LT K] [LE K] [BEq K]\n")
+                 "  [LT K] [LE K] [BEq K]" + (" [HasInterp K]" if interp else "") + "\n")
         b = self.base
         P.append("/-- The abstract methods of `BaseTransform`: what a transform object offers. -/")
         P.append("structure BaseTransform (K : Type) where\n" + "\n".join(f"  {m} : K → K" for m in b.abstract) + "\n")
